@@ -48,6 +48,7 @@ func finite(p s2.Point) bool {
 // library's own Validate rejects" and "the decoded value looks fine" are kept apart.
 type content struct {
 	zeroVertexLoop bool
+	fullPolygon    bool // the polygon consisting of the full loop (a valid value)
 	nonFinite      bool
 	nonUnit        bool
 	invalid        bool // the library's own validator rejects it (or panics)
@@ -58,6 +59,8 @@ func (c content) label() string {
 	switch {
 	case c.zeroVertexLoop:
 		return "zero-vertex-loop"
+	case c.fullPolygon:
+		return "full-polygon"
 	case c.nonFinite:
 		return "nonfinite"
 	case c.nonUnit:
@@ -223,6 +226,7 @@ func (d *decoded) inspect() content {
 			}
 		}
 		c.size += d.polygon.NumLoops()
+		c.fullPolygon = d.polygon.NumLoops() == 1 && d.polygon.Loops()[0] != nil && d.polygon.Loops()[0].IsFull()
 	}
 	return c
 }
